@@ -188,16 +188,52 @@ def run(tier):
     })
     res.assumptions += ["struct.pack and ctypes behave as documented", "accelerator facts in Driver.spec_table"]
 
+    def hw_limit_probe():
+        """a register command stream of a little over 2^22 words (16 MiB) through the public generator: it must be rejected
+        with a VelaError naming the hardware limit; one just below must be accepted. Written independently of the guard."""
+        import subprocess
+        code = (
+            "import sys\n"
+            "from ethosu.vela.api import npu_generate_register_command_stream, NpuAccelerator, NpuAddressRange, NpuDmaOperation\n"
+            "from ethosu.vela.errors import VelaError\n"
+            "def ops(n):\n"
+            "    return [NpuDmaOperation(NpuAddressRange(0, 16 * i, 16 + 16 * (i % 7)), NpuAddressRange(1, (1 << 28) + 16 * i, 16 + 16 * (i % 7))) for i in range(n)]\n"
+            "small = npu_generate_register_command_stream(ops(1000), NpuAccelerator.Ethos_U55_128)\n"
+            "per = len(small) / 1000.0\n"
+            "n_over = int((1 << 22) / per) + 2000\n"
+            "try:\n"
+            "    w = npu_generate_register_command_stream(ops(n_over), NpuAccelerator.Ethos_U55_128)\n"
+            "    print('ACCEPTED', len(w), n_over)\n"
+            "except VelaError as e:\n"
+            "    print('REJECTED', n_over, str(e)[:120].replace(chr(10), ' '))\n")
+        p = subprocess.run([vlib.PY, "-c", code], env=vlib.py_env(), capture_output=True, text=True, timeout=1200)
+        return (p.stdout.strip().split("\n") or [""])[-1], p.stderr[-400:]
+
+    guard_broken = bool(b.get("gen_fail", {}).get("GenGuards.hw_limit_guard"))
+    probe = None
+    if tier == "thorough" or guard_broken:
+        probe = hw_limit_probe()
+        res.cov["hardware_limit_probe"] = probe[0]
+
     def search():
+        if probe and probe[0].startswith("ACCEPTED"):
+            n = probe[0].split()
+            return ({"path": "generate_command_stream", "why": "stream beyond 16 MiB accepted"},
+                    {"recipe": "npu_generate_register_command_stream of %s 1-D DMA operations (src region 0 at 16*i, dst region 1 at 2^28+16*i, "
+                               "length 16+16*(i mod 7)) for Ethos_U55_128" % n[2], "words_returned": int(n[1])},
+                    "a register command stream of %s words (more than 16 MiB) is generated without the hardware-limit error" % n[1])
         if first_bad:
             a, ws, why = first_bad
             return ({"accelerator": name_of[a], "n_words": len(ws), "why": why},
                     {"accelerator": name_of[a], "words": ws[:64], "reason": why}, "driver payload: " + why)
         return None
 
-    if first_bad:
+    if first_bad or (probe and probe[0].startswith("ACCEPTED")):
         k, d, w = search()
         res.violation(k, d, w)
+    elif probe and not probe[0].startswith("REJECTED"):
+        res.violation({"machinery": "hardware limit probe"}, {"stdout": probe[0], "stderr": probe[1]},
+                      "the hardware-limit probe did not run to completion", no_input=True)
     elif not b["ok"]:
         vlib.report_broken_build(res, b, search)
     elif model_diff or not okx:
